@@ -19,6 +19,7 @@ CONSTANTS Addrs,      \* universe of peer addresses (strings)
 
 VARIABLES S,        \* the peer set of this run
           view,     \* [node -> how that node's peer list is permuted: "sorted" | "reversed" | "rotated"]
+          hist,     \* [node -> "fresh" (started on S) | "grew" (started alone, then learned S) | "shrank" (started on all of Addrs, then learned S)]
           landed,   \* [trace -> set of nodes whose collector received a span of it]
           count,    \* [trace -> spans collected]
           hops,     \* maximum forwarding hops seen
@@ -28,14 +29,17 @@ VARIABLES S,        \* the peer set of this run
           own,      \* [trace -> owner, or "" while no span of it has been routed yet]  (the hash, resolved lazily)
           act
 
-vars == <<S, view, landed, count, hops, selfFwd, outside, sends, own, act>>
+vars == <<S, view, hist, landed, count, hops, selfFwd, outside, sends, own, act>>
 Views == {"sorted", "reversed", "rotated"}
+Histories == {"fresh", "grew", "shrank"}
 
 \* uninterpreted ownership: some member of the set, fixed the first time the trace is routed
 \* (whichever node routes it first: all nodes compute the same function of the same set)
 
 Init == /\ S \in (SUBSET Addrs) \ {{}}
         /\ view \in [S -> Views]
+        \* ownership must be a function of the CURRENT list only, whatever lists a node saw before
+        /\ hist \in [S -> Histories]
         /\ landed = [t \in Traces |-> {}]
         /\ count = [t \in Traces |-> 0]
         /\ hops = 0 /\ selfFwd = 0 /\ outside = 0 /\ sends = 0
@@ -52,7 +56,7 @@ Send(n, t) ==
      /\ count' = [count EXCEPT ![t] = @ + 1]
      /\ hops' = IF o = n THEN hops ELSE (IF hops < 1 THEN 1 ELSE hops)
   /\ act' = [name |-> "Send", n |-> n, t |-> t]
-  /\ UNCHANGED <<S, view, selfFwd, outside>>
+  /\ UNCHANGED <<S, view, hist, selfFwd, outside>>
 
 Next == \E n \in S, t \in Traces : Send(n, t)
 Spec == Init /\ [][Next]_vars
@@ -66,7 +70,7 @@ NoSelfForward == selfFwd = 0 /\ outside = 0
 Abs == [ landedCount |-> [t \in Traces |-> Cardinality(landed[t])],
          count |-> count, hops |-> hops, selfFwd |-> selfFwd, outside |-> outside,
          agree |-> TRUE ]     \* agree: every node's sharder names the same owner for every probe trace id, and it is in S
-Hid == [ S |-> S, view |-> view, sends |-> sends, own |-> own ]
+Hid == [ S |-> S, view |-> view, hist |-> hist, sends |-> sends, own |-> own ]
 Dump == PrintT(ToJson([fa |-> act.name, act |-> act', fabs |-> Abs, fhid |-> Hid, tabs |-> Abs', thid |-> Hid']))
-View == <<S, view, landed, count, hops, selfFwd, outside, sends, own>>
+View == <<S, view, hist, landed, count, hops, selfFwd, outside, sends, own>>
 =============================================================================
